@@ -228,8 +228,14 @@ func inAssert(t *Thread, fn *ssa.Function, args []Value, pos token.Pos) Value {
 			pref = e.ts.And(pref, rc)
 		}
 		e.queries++
-		if r2, m2, _ := e.ps.Check(e.pc, pref, e.modelVars(pref)); r2 == Sat && m2 != nil {
+		r2, m2, _ := e.ps.Check(e.pc, pref, e.modelVars(pref))
+		if r2 == Sat && m2 != nil {
 			m = e.fullModel(m2)
+		} else if r2 == Unsat {
+			// the assertion can only fail when a float->int conversion is out of range, where Go's
+			// result is implementation-dependent: outside the claim (stated in the evidence)
+			e.rangeExcluded++
+			r = Unsat
 		}
 	}
 	switch r {
